@@ -647,6 +647,27 @@ func (ex *Exec) initPkg(pkg *ssa.Package) {
 		}()
 		ex.callSSA(nil, token.NoPos, initFn, nil, nil)
 	}()
+	// Initialisers run lazily (on first use of a package's variables), which would
+	// lose registrations that other loaded packages make into this package's
+	// registry from their own initialisers. In a Go binary every linked package is
+	// initialised before main, so: once a registry package is initialised, the
+	// loaded packages known to register into it are initialised too.
+	for _, dep := range initRegistrants[pkg.Pkg.Path()] {
+		if sp := ex.p.prog.ImportedPackage(dep); sp != nil && !ex.inited[sp] {
+			ex.initPkg(sp)
+		}
+	}
+}
+
+var initRegistrants = map[string][]string{
+	"github.com/ipld/go-ipld-prime/multicodec": {
+		"github.com/ipld/go-ipld-prime/codec/dagcbor",
+		"github.com/ipld/go-ipld-prime/codec/dagjson",
+		"github.com/ipld/go-ipld-prime/codec/raw",
+	},
+	"github.com/multiformats/go-multiaddr": {
+		"github.com/ipni/go-libipni/maurl",
+	},
 }
 
 func describePanic(r interface{}) string {
